@@ -35,7 +35,7 @@ META = {
 def units(tier):
     us = []
     for m in ('tools', 'laue'):
-        for g in ('ubi', 'ubi_cell_u', 'ubi_rod', 'ubi_to_u_b', 'ub_to_u_b'):
+        for g in ('ubi', 'ubi_cell_u', 'ubi_rod', 'ubi_to_u_b', 'ub_to_u_b', 'ubi_history'):
             us.append({'name': '%s/%s' % (m, g), 'module': m, 'group': g})
     return us
 
@@ -86,6 +86,8 @@ def run_unit(u, desc, tier, seed):
     extra = ['h', 'k', 'l'] if group == 'ubi' else []
     if group == 'ubi_to_u_b':
         extra = ['d1', 'd2', 'd3']
+    if group == 'ubi_history':
+        extra = ['dl']
     f, ctx = setup(extra)
     zc = ctx.zc
     cell = C.cell_of(f)
@@ -101,6 +103,14 @@ def run_unit(u, desc, tier, seed):
     if group == 'ubi_to_u_b':
         for d in ('d1', 'd2', 'd3'):
             f.relation(d, f.R.one)
+    cellB = None
+    if group == 'ubi_history':
+        # history independence: the same conversions were called just before with a cell whose first length differs by the
+        # factor (1+dl), |dl| <= 1e-4 (a refinement step); the second result must be that of the second cell
+        dl = f.var('dl')
+        ctx.pre = ctx.pre + [zc.cmp0(dl - lift(Fraction(1, 10 ** 4)), '<='), zc.cmp0(dl + lift(Fraction(1, 10 ** 4)), '>=')]
+        cellB = [cell[0] * (1 + dl)] + list(cell[1:])
+        hint['dl'] = '1/2000000'
 
     def body():
         with patched(mod, checks):
@@ -114,6 +124,11 @@ def run_unit(u, desc, tier, seed):
             if group == 'ubi_rod':
                 UBI = mod.u_to_ubi(U, cell)
                 return {'UBI': UBI, 'rod1': mod.ubi_to_rod(UBI), 'rod2': mod.u_to_rod(U)}
+            if group == 'ubi_history':
+                UBI1 = mod.u_to_ubi(U, cell)
+                U1 = mod.ubi_to_u(UBI1)
+                UBI = mod.u_to_ubi(U, cellB)
+                return {'UBI': UBI, 'cell2': mod.ubi_to_cell(UBI), 'U2': mod.ubi_to_u(UBI), 'UBI1': UBI1}
             if group == 'ubi_to_u_b':
                 UBI = mod.u_to_ubi(U, cell)
                 B = mod.form_b_mat(cell)
@@ -170,6 +185,14 @@ def run_unit(u, desc, tier, seed):
                 else:
                     P('ubi_to_cell/angle%d' % i, C.resid_goal(zc, [c2[i].c - cell[i].c]))
             P('ubi_to_u/U', C.resid_goal(zc, C.flat(U2 - U)))
+        elif group == 'ubi_history':
+            c2, U2 = outs['cell2'], outs['U2']
+            P('history/ubi_to_cell(second cell)/lengths', C.resid_goal(zc, [c2[i] - cellB[i] for i in range(3)]))
+            for i in (3, 4, 5):
+                if isinstance(c2[i], Angle):
+                    P('history/ubi_to_cell(second cell)/angle%d' % i, C.resid_goal(zc, [c2[i].c - cell[i].c]))
+            P('history/ubi_to_u(second cell)/U', C.resid_goal(zc, C.flat(U2 - U)))
+            P('history/UBI.UBIt=G(second cell)/00', C.resid_goal(zc, [np.dot(outs['UBI'], outs['UBI'].T)[0, 0] - cellB[0] * cellB[0]]))
         elif group == 'ubi_rod':
             P('ubi_to_rod=u_to_rod', C.resid_goal(zc, C.flat(outs['rod1'] - outs['rod2'])))
         elif group == 'ubi_to_u_b':
@@ -257,9 +280,15 @@ def validate(mod, modname, group, outs, env):
     cellf = C.cell_floats(env)
     U = rot_from_quat(quat_floats(env))
     try:
+        if group == 'ubi_history':
+            mod.ubi_to_u(mod.u_to_ubi(U, cellf))
+            cellf = [cellf[0] * (1 + env.get('dl', 0.0))] + list(cellf[1:])
         UBI = mod.u_to_ubi(U, cellf)
         if not C.close(C.evalarr(outs['UBI'], env), UBI, 1e-7, 1e-8):
             return False
+        if group == 'ubi_history':
+            return (C.close([C.evalq(x, env) for x in outs['cell2']], mod.ubi_to_cell(UBI), 1e-7, 1e-7)
+                    and C.close(C.evalarr(outs['U2'], env), mod.ubi_to_u(UBI), 1e-7, 1e-8))
         if group == 'ubi_cell_u':
             return (C.close([C.evalq(x, env) for x in outs['cell2']], mod.ubi_to_cell(UBI), 1e-7, 1e-7)
                     and C.close(C.evalarr(outs['U2'], env), mod.ubi_to_u(UBI), 1e-7, 1e-8))
@@ -273,7 +302,7 @@ def validate(mod, modname, group, outs, env):
         return False
 
 
-def numeric(modname, group, cell, q, hkl, ubparts=None, tol=1e-6, Umat=None):
+def numeric(modname, group, cell, q, hkl, ubparts=None, tol=1e-6, Umat=None, dl=0.0):
     mod = importlib.import_module('xfab.' + modname)
     import xfab
     xfab.CHECKS.activated = True
@@ -294,6 +323,14 @@ def numeric(modname, group, cell, q, hkl, ubparts=None, tol=1e-6, Umat=None):
             chk('B', B2, B0)
             return bad
         U = np.array(Umat, float) if Umat is not None else rot_from_quat(np.asarray(q) / np.linalg.norm(q))
+        if group == 'ubi_history':
+            mod.ubi_to_u(mod.u_to_ubi(U, cell))          # the preceding call of the history
+            cellB = [cell[0] * (1 + dl)] + list(cell[1:])
+            UBI = mod.u_to_ubi(U, cellB)
+            tol = 1e-9
+            chk('history: ubi_to_cell after a call with a neighbouring cell', mod.ubi_to_cell(UBI), cellB)
+            chk('history: ubi_to_u after a call with a neighbouring cell', mod.ubi_to_u(UBI), U)
+            return bad
         UBI = mod.u_to_ubi(U, cell)
         B = mod.form_b_mat(cell)
         if group == 'ubi':
@@ -350,8 +387,8 @@ def mk_replay(f, modname, group):
             return False, rec, 'property holds numerically at the model and on the structured rotation bank'
         else:
             rec = {'module': modname, 'group': group, 'cell': C.cell_floats(env), 'q': quat_floats(env).tolist(),
-                   'hkl': [env.get('h', 1.0), env.get('k', 2.0), env.get('l', -1.0)], 'ubparts': None}
-        bad = numeric(rec['module'], rec['group'], rec['cell'], rec['q'], rec['hkl'], rec['ubparts'])
+                   'hkl': [env.get('h', 1.0), env.get('k', 2.0), env.get('l', -1.0)], 'ubparts': None, 'dl': env.get('dl', 0.0)}
+        bad = numeric(rec['module'], rec['group'], rec['cell'], rec['q'], rec['hkl'], rec['ubparts'], dl=rec['dl'])
         if bad:
             return True, rec, '; '.join('%s: %s' % b for b in bad[:3])
         if group == 'ubi_to_u_b':
@@ -367,5 +404,5 @@ def mk_replay(f, modname, group):
 
 def replay(rec):
     r = rec['replay']
-    bad = numeric(r['module'], r['group'], r['cell'], r['q'], r['hkl'], r.get('ubparts'), Umat=r.get('U'))
+    bad = numeric(r['module'], r['group'], r['cell'], r['q'], r['hkl'], r.get('ubparts'), Umat=r.get('U'), dl=r.get('dl', 0.0))
     return bool(bad), '; '.join('%s: %s' % b for b in bad) or 'property holds on the recorded input'
